@@ -224,7 +224,7 @@ def page_info(name: str, root: Node) -> Dict[str, Any]:
                 ids.append(n.attrs[k])
         for k in ('href', 'src'):
             if k in n.attrs:
-                refs.append([k, n.attrs[k], zone_of(n), ' '.join(n.classes())])
+                refs.append([k, n.attrs[k], zone_of(n), ' '.join(n.classes()), n.attrs.get('title')])
     info['ids'] = ids
     info['refs'] = refs
     title = root.first('title')
